@@ -2,7 +2,7 @@
 Model of SSH channel flow control (C36).
 
 Transcribes, from `src/twisted/conch/ssh/channel.py`:
-  `SSHChannel.write`, `writeExtended`, `addWindowBytes`, `loseConnection`, `closeReceived`
+  `SSHChannel.write`, `writeSequence`, `writeExtended`, `addWindowBytes`, `loseConnection`, `closeReceived`
   (state: `remoteWindowLeft`, `remoteMaxPacket`, `buf`, `extBuf`, `closing`, `areWriting`,
   `localClosed`, `remoteClosed`, `localWindowSize`, `localWindowLeft`, `localMaxPacket`)
 and from `src/twisted/conch/ssh/connection.py`:
@@ -110,6 +110,16 @@ def write (c : Chan) (data : Bytes) : Chan × List Out :=
       (r.1, out ++ r.2)
     else (c1, out)
 
+/-- `b"".join(data)` -/
+def joinPieces : List Bytes → Bytes
+  | [] => []
+  | d :: ds => d ++ joinPieces ds
+
+/-- `SSHChannel.writeSequence`: `self.write(b"".join(data))` — one `write` of the pieces in order, whatever
+kind of iterable they come in (the driver maps a `writeSequence` call to `In.write (joinPieces ds)`, so every
+theorem about histories covers it) -/
+def writeSequence (c : Chan) (ds : List Bytes) : Chan × List Out := write c (joinPieces ds)
+
 /-- `self.extBuf[-1][1] += data` when the last entry has the same type, else `append([type, data])` -/
 def bufferExt : List (Nat × Bytes) → Nat → Bytes → List (Nat × Bytes)
   | [], t, d => [(t, d)]
@@ -142,8 +152,11 @@ def flushExt (c : Chan) : List (Nat × Bytes) → Chan × List Out
 def flushBuf (c : Chan) : Chan × List Out :=
   if c.buf ≠ [] then write { c with buf := [] } c.buf else (c, [])
 
-/-- `if self.extBuf: b = self.extBuf; self.extBuf = []; closing, self.closing = self.closing, 0;`
-`for …: self.writeExtended(…); if closing: self.loseConnection()` -/
+/-- `if self.extBuf: b = self.extBuf; self.extBuf = []; for …: self._writeExtended(…);`
+`[if windowFull: self.stopWriting()]; if self.closing: self.loseConnection()` — `_writeExtended` is
+`writeExtended` without the `stopWriting()` hook and without the retry of a pending close; the model writes
+that as `writeExtended` with `closing` suspended during the loop (same packets, same final state; the hooks
+are the default no-ops here). -/
 def flushExtBuf (c : Chan) : Chan × List Out :=
   if c.extBuf ≠ [] then
     let r := flushExt { c with extBuf := [], closing := false } c.extBuf
